@@ -1,11 +1,18 @@
 package spine
 
-import "github.com/enbility/spine-go/model"
+import (
+	"sync"
+
+	"github.com/enbility/spine-go/model"
+)
 
 type Device struct {
 	address    *model.AddressDeviceType
 	dType      *model.DeviceTypeType
 	featureSet *model.NetworkManagementFeatureSetType
+
+	// guards address, dType and featureSet, a remote device learns them from the discovery data
+	muxInfo sync.RWMutex
 }
 
 // Initialize a new device
@@ -30,14 +37,23 @@ func NewDevice(address *model.AddressDeviceType, dType *model.DeviceTypeType, fe
 }
 
 func (r *Device) Address() *model.AddressDeviceType {
+	r.muxInfo.RLock()
+	defer r.muxInfo.RUnlock()
+
 	return r.address
 }
 
 func (r *Device) DeviceType() *model.DeviceTypeType {
+	r.muxInfo.RLock()
+	defer r.muxInfo.RUnlock()
+
 	return r.dType
 }
 
 func (r *Device) FeatureSet() *model.NetworkManagementFeatureSetType {
+	r.muxInfo.RLock()
+	defer r.muxInfo.RUnlock()
+
 	return r.featureSet
 }
 
